@@ -145,6 +145,8 @@ class Tr:
             val = getattr(obj, "value", obj) if not isinstance(obj, (int, bytes)) else obj
             if isinstance(val, bytes) and not isinstance(obj, (int, bytes)):
                 return ("([%s] : List UInt8)" % ", ".join("0x%02x" % c for c in val), "Bytes")
+            if isinstance(val, int) and not isinstance(val, bool) and not isinstance(obj, int):
+                return (int(val), "lit")           # a member of an enum with integer values: compared through its value
             return (self.const(chain), "lit")
         if isinstance(n, ast.UnaryOp):
             if isinstance(n.op, ast.USub):
@@ -523,6 +525,9 @@ def kernels(C, Z=None):
     ks.append(Fn("FragmentSender_split", f(C.FragmentSender, "build"), [("fuel", "Nat"), ("payload", "Len")], ret=None, state=["self_fragments"], extract=_split_loop,
                  types={"self_fragments": "List Int", "payload": "Len"},
                  doc="FragmentSender.build: the lengths of the fragments the `while` loop cuts a payload of a given length into"))
+    ks.append(Fn("Packet_total_size", f(C.Packet, "total_size"), [("key", "Bool")], ret="Int",
+                 types={"self_msg": "Len"},
+                 doc="Packet.total_size(key): `key` = whether a key is given; the packet type through its integer value"))
     ks.append(Fn("PacketHeader_to_bytes", f(C.PacketHeader, "to_bytes"), [], ret="List UInt8",
                  types={"self_isServer": "Bool"},
                  doc="PacketHeader.to_bytes: the 20 header bytes (the first 12 are the AES-GCM nonce), or struct.error"))
@@ -540,6 +545,7 @@ READS = {   # read-only attributes that become extra parameters (they are object
     "ack_names": [("hdr_ack", "Int"), ("hdr_ack_bits", "Nat")],
     "stale_datagram": [("self_bitfield_pkt_current_seqnum", "Int"), ("self_bitfield_pkt_nbits", "Nat"), ("pkt_hdr_seq", "Int")],
     "serialize_int": [("out", "List UInt8")],
+    "Packet_total_size": [("self_hdr_pkt_type", "Int"), ("self_msg", "Len")],
     "PacketHeader_to_bytes": [("self_isServer", "Bool"), ("self_ctime", "Int"), ("self_seq", "Int"), ("self_ack", "Int"),
                               ("self_pkt_type_value", "Int"), ("self_length", "Int"), ("self_count", "Int"), ("self_ack_bits", "Int")],
     "FragmentSender_split": [("Packet_MAX_PAYLOAD_SIZE", "Int"), ("Packet_MAX_FRAGMENT_SIZE", "Int")],
@@ -617,7 +623,7 @@ GROUPS = {      # group -> (kernels, imports): one Lean file and one equivalence
     "Size": (["Packet_overhead", "Packet_setMTU"], ["Seq"]),
     "Serial": (["serialize_int"], ["Seq"]),
     "Frag": (["FragmentSender_split"], ["Seq"]),
-    "Header": (["PacketHeader_to_bytes"], ["Seq"]),
+    "Header": (["PacketHeader_to_bytes", "Packet_total_size"], ["Seq"]),
 }
 
 
